@@ -28,6 +28,7 @@ void harness(void) {
 	VU_INPUT(r);
 	VU_INPUT(b);
 	__CPROVER_assume(vu_shape_ok(&r, r_pool) && vu_shape_ok(&b, b_pool));
+	__CPROVER_assume(vu_legal(&r, r_pool) && vu_legal(&b, b_pool));
 	__CPROVER_assume(compat <= 1 && gk < VT);
 #ifdef V_NOFAIL
 	__CPROVER_assume(failmask == 0);
@@ -68,8 +69,8 @@ void harness(void) {
 		/* regions of the known findings, described on the *specified* result: */
 		raw = vt.path;
 		unrooted_bad = sv_path_unrooted_reads_rooted(&vt.path);                     /* ("", x, ..) unrooted: text "/x" */
-		dslash_raw = (vt.hostkind == VU_HK_NONE) && vt.path.rooted && vt.path.n >= 3 && vt.path.seg[0].len == 1
-			&& vt.path.seg[0].p == sv_dot && vt.path.seg[1].len == 0;                  /* guard was needed: "/.//x" */
+		dslash_raw = (vt.hostkind == VU_HK_NONE) && vt.path.rooted && vt.path.n >= 3 && SV_IS_DOT(&vt.path.seg[0])
+			&& vt.path.seg[1].len == 0;                  /* guard was needed: "/.//x" */
 		VPOST_KF("C06", (KF_C06_UNROOTED_EMPTY_FIRST || KF_C06_DSLASH_NO_GUARD),
 			(KF_C06_UNROOTED_EMPTY_FIRST && unrooted_bad) || (KF_C06_DSLASH_NO_GUARD && dslash_raw),
 			sv_path_eq(&vd.path, &vt.path), "AddBaseUri: T.path == guard(remove_dot_segments(merge-or-copy)) as RFC 3986 5.2.2-5.2.4",
